@@ -70,6 +70,13 @@ structure NetCfg where
   rfind : Bool              -- `line.rfind(':')` (true) or `line.find(':')`
   unpack : List String      -- the 16 names on the left of `= map(int, fields)`
   output : List String      -- the names in the tuple stored in `retdict[name]`
+  stripSet : Option (List Nat)  -- `line[:colon].strip()` (none) or `.strip(chars)` (some chars)
+
+/-- which characters `line[:colon].strip(…)` removes from both ends of the name -/
+def NetCfg.nameWs (cfg : NetCfg) : Nat → Bool :=
+  match cfg.stripSet with
+  | none => isWsT
+  | some cs => fun c => cs.contains c
 
 def netLine (cfg : NetCfg) (line : Bytes) : Res (Bytes × List Nat) :=
   match (if cfg.rfind then rfindIdx? 58 line else findIdx? 58 line) with
@@ -77,7 +84,7 @@ def netLine (cfg : NetCfg) (line : Bytes) : Res (Bytes × List Nat) :=
   | some 0 => .err .assertionError          -- colon = 0
   | some (c + 1) =>
     let colon := c + 1
-    let name := stripP isWsT (line.take colon)
+    let name := stripP cfg.nameWs (line.take colon)
     -- `line[colon+1:].strip().split()`; `strip()` before `split()` is a no-op
     let fields := splitP isWsT (line.drop (colon + 1))
     match ints fields with
